@@ -30,7 +30,7 @@ PROPS = {
     ),
     'C02': dict(
         title='embed', proj='proj_shape', oracle='c02',
-        quick=[S_('probes', nc=1, items=('eq_defaults',)), S_('homonym_rand', count=20000), S_('bind'), S_('embed_small'), S_('embed_pairs'), S_('embed_rand', count=20000)],
+        quick=[S_('probes', nc=1, items=('eq_defaults', 'plain_sequence')), S_('homonym_rand', count=20000), S_('bind'), S_('embed_small'), S_('embed_pairs'), S_('embed_rand', count=20000)],
         thorough=[S_('probes', nc=1, items=('eq_defaults',)), S_('homonym_rand', count=300000), S_('bind'), S_('embed_small'), S_('embed_pairs', nc=64), S_('embed_rand', count=300000)],
         runtime_part=BINDER,
         level_text='Theorems about the Lean model of _embed/embed (soundness w.r.t. the outer-forwards-to-inner composite, parameters of the '
@@ -49,7 +49,7 @@ PROPS = {
     ),
     'C08': dict(
         title='provenance', proj='proj_prov', oracle='c08',
-        quick=[S_('prov_rand', count=20000), S_('homonym_rand', count=20000), S_('merge_pairs'), S_('merge_pairs_stars'), S_('merge_roles', count=20000), S_('merge_laws'),
+        quick=[S_('probes', nc=1, items=('callable_prov', 'depths_key')), S_('prov_rand', count=20000), S_('homonym_rand', count=20000), S_('merge_pairs'), S_('merge_pairs_stars'), S_('merge_roles', count=20000), S_('merge_laws'),
                S_('embed_small'), S_('embed_pairs'), S_('embed_rand', count=20000), S_('forwards_rand', count=30000),
                S_('mask0'), S_('maskp'), S_('maskflags', count=20000), S_('probes_c08', nc=1), S_('modsig'), S_('retrbound')],
         thorough=[S_('prov_rand', count=300000), S_('homonym_rand', count=300000), S_('merge_pairs'), S_('merge_pairs_stars'), S_('merge_roles', count=300000), S_('merge_rand', count=200000),
@@ -84,9 +84,9 @@ PROPS = {
     ),
     'C15': dict(
         title='error discipline', proj='proj_err', oracle='c15',
-        quick=[S_('probes', nc=1, items=('depths_key',)), S_('programs', count=2000, oracle='c05', proj='proj_full'), S_('probes_c15', nc=1, oracle='c05', proj='proj_full'), S_('homonym_rand', count=20000), S_('merge_pairs'), S_('merge_rand', count=20000), S_('embed_small'), S_('embed_rand', count=20000),
+        quick=[S_('probes', nc=1, items=('depths_key', 'bare_upgraded', 'plain_sequence')), S_('programs', count=2000, oracle='c05', proj='proj_full'), S_('probes_c15', nc=1, oracle='c05', proj='proj_full'), S_('homonym_rand', count=20000), S_('merge_pairs'), S_('merge_rand', count=20000), S_('embed_small'), S_('embed_rand', count=20000),
                S_('forwards_rand', count=30000), S_('maskflags_exh'), S_('maskflags', count=40000), S_('meta_rand', count=20000)],
-        thorough=[S_('probes', nc=1, items=('depths_key',)), S_('programs', count=30000, oracle='c05', proj='proj_full'), S_('probes_c15', nc=1, oracle='c05', proj='proj_full'), S_('homonym_rand', count=300000), S_('merge_pairs'), S_('merge_pairs_stars'), S_('merge_rand', count=300000), S_('embed_small'),
+        thorough=[S_('probes', nc=1, items=('depths_key', 'bare_upgraded', 'plain_sequence')), S_('programs', count=30000, oracle='c05', proj='proj_full'), S_('probes_c15', nc=1, oracle='c05', proj='proj_full'), S_('homonym_rand', count=300000), S_('merge_pairs'), S_('merge_pairs_stars'), S_('merge_rand', count=300000), S_('embed_small'),
                   S_('embed_pairs', nc=64), S_('embed_rand', count=300000), S_('forwards_rand', count=300000),
                   S_('maskflags_exh'), S_('maskflags', count=300000), S_('mask0'), S_('meta_rand', count=200000)],
         runtime_part=CTOR,
@@ -145,8 +145,8 @@ PROPS = {
     ),
     'C16': dict(
         title='no mutation, even on failure', proj='proj_full', oracle='c16',
-        quick=[S_('probes', nc=1, items=('dict_unpack', 'lru_callee')), S_('cleanup'), S_('faults'), S_('alias', count=6000), S_('probes_c16', nc=1)],
-        thorough=[S_('probes', nc=1, items=('dict_unpack', 'lru_callee')), S_('cleanup'), S_('faults'), S_('alias', count=60000), S_('probes_c16', nc=1)],
+        quick=[S_('probes', nc=1, items=('dict_unpack', 'lru_callee', 'none_attrs')), S_('cleanup'), S_('faults'), S_('alias', count=6000), S_('probes_c16', nc=1)],
+        thorough=[S_('probes', nc=1, items=('dict_unpack', 'lru_callee', 'none_attrs')), S_('cleanup'), S_('faults'), S_('alias', count=60000), S_('probes_c16', nc=1)],
         runtime_part='which calls cross into outside code (the injector patches inspect.signature, inspect.getsource, ast.parse, user forgers and attribute getters), real attribute storage',
         level_text='cleanup_functools_wrapper + the as_forged guard are a step machine with a crash possible at every outside call: "attributes and guard are restored for every crash '
                    'point" is a theorem; the real context manager is compared with the model for every store shape x crash point, whole retrievals are run with an exception injected at '
@@ -155,8 +155,8 @@ PROPS = {
     ),
     'C17': dict(
         title='concurrent retrieval', proj='proj_full', oracle='c17',
-        quick=[S_('sched'), S_('threads_rt', nc=4), S_('preempt', nc=16)],
-        thorough=[S_('sched'), S_('threads_rt', nc=8), S_('preempt', nc=16)],
+        quick=[S_('sched'), S_('threads_rt', nc=4), S_('preempt', nc=16), S_('probes', nc=4, items=('preempt2_0', 'preempt2_1', 'preempt2_2', 'preempt2_3'))],
+        thorough=[S_('sched'), S_('threads_rt', nc=8), S_('preempt', nc=16), S_('probes', nc=4, items=('preempt2_0', 'preempt2_1', 'preempt2_2', 'preempt2_3'))],
         runtime_part="the interpreter's scheduler below line granularity; WeakValueDictionary's internal locking",
         level_text='The save/restore program run by N threads under an arbitrary schedule is a Lean model: restoration at quiescence is a theorem for any number of threads and any '
                    'schedule; the sequential-answer clause is refuted for the delete/restore window (finding D6, theorem sequential_answers_refuted). Real threads are single-stepped at '
@@ -165,8 +165,8 @@ PROPS = {
     ),
     'C18': dict(
         title='order / history independence, no retention', proj='proj_full', oracle='c18',
-        quick=[S_('probes', nc=1, items=('hint_history',)), S_('cacheid', nc=8), S_('cache', maxlen=3), S_('modorder'), S_('pokm'), S_('lateattr', nc=1), S_('probes', nc=1, items=('owner_binding',)), S_('redecorate', nc=4)],
-        thorough=[S_('probes', nc=1, items=('hint_history',)), S_('cacheid', nc=8, count=6000), S_('cache', maxlen=4), S_('modorder'), S_('pokm'), S_('lateattr', nc=1), S_('probes', nc=1, items=('owner_binding',)), S_('redecorate', nc=4)],
+        quick=[S_('probes', nc=1, items=('hint_history', 'pok_forms_bound')), S_('cacheid', nc=8), S_('cache', maxlen=3), S_('modorder'), S_('pokm'), S_('lateattr', nc=1), S_('probes', nc=1, items=('owner_binding',)), S_('redecorate', nc=4)],
+        thorough=[S_('probes', nc=1, items=('hint_history', 'pok_forms_bound')), S_('cacheid', nc=8, count=6000), S_('cache', maxlen=4), S_('modorder'), S_('pokm'), S_('lateattr', nc=1), S_('probes', nc=1, items=('owner_binding',)), S_('redecorate', nc=4)],
         runtime_part='the garbage collector and weakref callbacks (observed through weak references after gc.collect())',
         level_text='The descriptor cache is a heap-reachability model over arbitrary operation histories: no retention with the weak-value dictionary is a theorem (and retention with the '
                    'pinned weak-key one is its refutation, D7, repaired); order independence of stacked modifiers is the theorem prepare_set_ext. Real histories (all of length <= 3/4 over '
@@ -188,8 +188,8 @@ PROPS = {
     ),
     'C06': dict(
         title='discovery = declaration; invariance', proj='proj_full', oracle='c06',
-        quick=[S_('probes', nc=1, items=('lru_callee',)), S_('programs', count=3000), S_('progexec', count=3000, ops=('declared', 'variants')), S_('visitor_adv', nc=4), S_('probes_c06', nc=1), S_('programs_hint', count=6000)],
-        thorough=[S_('probes', nc=1, items=('lru_callee',)), S_('programs', count=60000), S_('progexec', count=60000, ops=('declared', 'variants')), S_('visitor_adv', nc=4), S_('probes_c06', nc=1), S_('programs_hint', count=60000)],
+        quick=[S_('probes', nc=1, items=('lru_callee', 'kwname_decl')), S_('programs', count=3000), S_('progexec', count=3000, ops=('declared', 'variants')), S_('visitor_adv', nc=4), S_('probes_c06', nc=1), S_('programs_hint', count=6000)],
+        thorough=[S_('probes', nc=1, items=('lru_callee', 'kwname_decl')), S_('programs', count=60000), S_('progexec', count=60000, ops=('declared', 'variants')), S_('visitor_adv', nc=4), S_('probes_c06', nc=1), S_('programs_hint', count=60000)],
         runtime_part='the modifiers hint protocol, functools.wraps-only decorators, real name resolution',
         level_text='visitor = ground truth on the forwarding grammar and hence discovery = explicit declaration (computed from the ground truth with the algebra) are theorems about the model, as is '
                    'invariance under decoy calls / unrelated statements / assignment targets; on the real code every generated wrapper is compared with the declaration computed through the public '
@@ -208,7 +208,7 @@ PROPS = {
     ),
     'C11': dict(
         title='postponed annotations', proj='proj_uann', oracle='c11',
-        quick=[S_('probes', nc=1, items=('late_binding',)), S_('meta_post', count=30000), S_('meta_rand', count=10000), S_('annot', count=4000), S_('probes', nc=1, items=('annot_scopes',)), S_('probes_c11', nc=1)],
+        quick=[S_('probes', nc=1, items=('late_binding', 'annot_namespace')), S_('meta_post', count=30000), S_('meta_rand', count=10000), S_('annot', count=4000), S_('probes', nc=1, items=('annot_scopes',)), S_('probes_c11', nc=1)],
         thorough=[S_('probes', nc=1, items=('late_binding',)), S_('meta_post', count=300000), S_('meta_rand', count=100000), S_('annot', count=60000), S_('probes', nc=1, items=('annot_scopes',)), S_('probes_c11', nc=1)],
         runtime_part='eval() of postponed annotations in real function globals (stream `annot` compiles real twins with and without the future flag, shared and per-function globals)',
         level_text='The algebra carries the (annotation, upgraded annotation) pair of a parameter around without looking inside: that every pair of a result is literally the pair of an input parameter '
